@@ -313,11 +313,22 @@ def run(ctx):
             ok, why = False, 'non-constant value'
         ctx.ob('C07-R4', fn, norm(st), ok, why, line=st.lineno)
     # ---- R6 iteration and save walk the indices 0 .. len-1 in order -----------
-    itc = m.cls('_TrajectoryStoreIterator')
+    it0 = m.func('TrajectoryStore.__iter__')
+    r0 = [n for n in walk_no_nested(it0.node) if isinstance(n, ast.Return)]
+    if len(r0) == 1 and norm(r0[0].value) == 'self':
+        ctx.ob('C07-R6', it0, '__iter__ returns a fresh iterator', False,
+               'the store is its own iterator: the position is kept on the store, so two overlapping iterations '
+               '(nested loops, zip(store, store), a partly consumed iterator) share and reset one cursor and no longer '
+               'yield the trajectories in insertion order', line=r0[0].lineno)
+        return
+    itname = call_name(r0[0].value) if len(r0) == 1 and isinstance(r0[0].value, ast.Call) else None
+    itc = m.classes.get(itname) if itname else None
+    if itc is None:
+        ctx.undecided('C07-R6', it0, '__iter__', 'iterator class not found')
     nx = itc.methods.get('__next__')
     ini = itc.methods.get('__init__')
     if nx is None or ini is None:
-        ctx.undecided('C07-R6', (m.relpath, '_TrajectoryStoreIterator'), '__next__', 'iterator methods not found')
+        ctx.undecided('C07-R6', (m.relpath, itc.name), '__next__', 'iterator methods not found')
     src = ' '.join(norm(s_) for s_ in nx.node.body)
     ok = 'if self._index < len(self._store)' in src and 'item = self._store[self._index]' in src \
         and 'self._index += 1' in src and 'raise StopIteration' in src
@@ -328,7 +339,7 @@ def run(ctx):
            'iteration does not walk the indices 0..len-1 in order')
     it = m.func('TrajectoryStore.__iter__')
     r = [n for n in walk_no_nested(it.node) if isinstance(n, ast.Return)]
-    ok = len(r) == 1 and norm(r[0].value) == '_TrajectoryStoreIterator(self)'
+    ok = len(r) == 1 and norm(r[0].value) == f'{itc.name}(self)'
     ctx.ob('C07-R6', it, '__iter__ hands out a fresh iterator over this store', ok, norm(r[0].value) if ok else '__iter__ changed', nontrivial=False)
     sv = m.func('TrajectoryStore.save')
     n_def = single_def_value(sv.node, 'trajectories_to_save')
